@@ -124,6 +124,21 @@ UNIT = {
  'name': 'cachetransp',
  'doc': 'caches are invisible (sequential path): representation invariant "every cache entry equals the uncached computation for its key" kept and used by StorageResolver::get / get_data_or_decode',
  'timeout': 600,
+ # BOUNDED native stand-in (never counted as proved): the corpus read through every cache configuration, transcripts compared
+ 'native': {'tests': [
+    {'name': 'corpus_reads_the_same_through_every_cache_configuration', 'code': 'native_c12_bounded.rs', 'place': 'pdf/tests/verif_c12_bounded.rs',
+     'fn': 'FileOptions::load', 'props': ['C12'], 'tier': 'quick', 'timeout': 900,
+     'bound': 'the 31 PDFs under /repo/files (17 top level, 9 invalid/, 5 password_protected/ with the user password) + 1 file built in the test that '
+              'strict and tolerant options read differently; x {strict, tolerant} x 8 cached set-ups (cached(); both / object-only / stream-only '
+              'caches each with the option setters before AND after .cache(..); NoCache attached twice) against the uncached document; calls: open, '
+              'page count, pages 0..min(n,40) and n each looked up twice (reference, media box, rotate, resources reference, every font loaded twice '
+              'per look-up with as_ref() compared, XObject references), every object number < min(/Size, 4000): raw resolve twice, streams raw_data / '
+              'Stream::data twice / raw_image_data twice (images) / data and raw_data again; the catalog reference as Dictionary, Stream, Catalog, '
+              'PagesNode in all 24 orders, each order twice through one resolver of a fresh document, also against single calls. ~50 s. Not covered: '
+              'files with an `N G obj` header that contradicts the table (findings/stream_cache_keyed_by_header_id.md), Updater calls between reads, threads',
+     'contract': 'every cached set-up answers call by call what the uncached document answers (equal values / same root-cause error kind), and a repeated '
+                 'call answers what the first one answered'},
+ ]},
  'deviations': {
    'DEV_GUARD_REFUSAL_CACHED': 'a typed load that runs NESTED in other loads can be answered differently from the same load made from scratch '
         '(the recursion guard refuses a reference back into the chain; a tolerant Option reader turns the refusal into "absent", or the refusal '
